@@ -974,7 +974,7 @@ for _n, _r in (("np.abs", "V"), ("np.max", "R"), ("np.min", "R"), ("np.nanmin", 
                ("np.power", "V"), ("np.prod", "R"), ("np.where", "V"), ("np.hstack", "V"), ("np.vstack", "V"),
                ("np.diag", "V"), ("np.tril", "V"), ("np.cumsum", "V"), ("np.argsort", "V"), ("np.dot", None),
                ("np.linalg.norm", "R"), ("np.linalg.solve", "V"), ("np.isin", "V"), ("np.transpose", "V"),
-               ("np.identity", "V"), ("np.eye", "V"), ("np.arange", "V"), ("np.repeat", "V"),
+               ("np.identity", "V"), ("np.eye", "V"), ("np.arange", "V"), ("np.repeat", "V"), ("np.unique", "V"),
                ("sp.linalg.solve_triangular", "V"), ("sp.linalg.cholesky", "V")):
     if _r is not None:
         LIB[_n] = _opaque_model(_n, _r)
